@@ -284,6 +284,7 @@ esl_keyhash_Store(ESL_KEYHASH *kh, const char *key, esl_pos_t n, int *opt_index)
   /* Reallocate key ptr/index memory if needed */
   if (kh->nkeys == kh->kalloc) 
     { 
+      if (kh->kalloc > INT_MAX / 2) ESL_XEXCEPTION(eslEMEM, "keyhash: number of keys exceeds int range");
       ESL_REALLOC(kh->key_offset, sizeof(int)*kh->kalloc*2);
       ESL_REALLOC(kh->nxt,        sizeof(int)*kh->kalloc*2);
       kh->kalloc *= 2;
@@ -292,6 +293,7 @@ esl_keyhash_Store(ESL_KEYHASH *kh, const char *key, esl_pos_t n, int *opt_index)
   /* Reallocate key string memory if needed */
   while (kh->sn + n + 1 > kh->salloc)
     {
+      if (kh->salloc > INT_MAX / 2) ESL_XEXCEPTION(eslEMEM, "keyhash: key string space exceeds int range");
       ESL_REALLOC(kh->smem, sizeof(char) * kh->salloc * 2);
       kh->salloc *= 2;
     }
